@@ -8,3 +8,4 @@ pub mod fl;
 pub mod ball;
 pub mod vm;
 pub mod evalrun;
+pub mod nb;
